@@ -587,6 +587,7 @@ func execute(s *engine.Script, o *engine.Outcome) {
 	}
 	o.ProbeN("yields", yields)
 	o.ProbeN("preemptions_inside_a_call", inSerial)
+	o.ProbeN("preemptions_postponed_to_the_unlock_of_a_lock_holder", schedHeldBack())
 	o.ProbeN("switches_with_two_tasks_inside_calls", overlap)
 	o.Probe("value:" + vop.Struct)
 	if os.Getenv("SIM_RACE") == "1" {
